@@ -4884,13 +4884,29 @@ namespace awkward {
     }
   }
 
+  namespace {
+    /// @brief Writes one integer; uint64_t goes through ToJson::uinteger
+    /// because values above the int64_t range would wrap to negative.
+    template <typename T>
+    inline void
+    tojson_integer_value(ToJson& builder, T x) {
+      builder.integer((int64_t)x);
+    }
+
+    template <>
+    inline void
+    tojson_integer_value<uint64_t>(ToJson& builder, uint64_t x) {
+      builder.uinteger(x);
+    }
+  }
+
   template <typename T>
   void
   NumpyArray::tojson_integer(ToJson& builder,
                              bool include_beginendlist) const {
     if (ndim() == 0) {
       T* array = reinterpret_cast<T*>(data());
-      builder.integer((int64_t)array[0]);
+      tojson_integer_value<T>(builder, array[0]);
     }
     else if (ndim() == 1) {
       T* array = reinterpret_cast<T*>(data());
@@ -4899,7 +4915,7 @@ namespace awkward {
         builder.beginlist();
       }
       for (int64_t i = 0;  i < length();  i++) {
-        builder.integer((int64_t)array[i*stride]);
+        tojson_integer_value<T>(builder, array[i*stride]);
       }
       if (include_beginendlist) {
         builder.endlist();
